@@ -189,13 +189,20 @@ def rule_publication(R):
         R.ob("publication/%s/topic" % short, okn, "%s::publication addresses the stored response topic" % short, where=b.span)
         R.ob("publication/%s/correlation" % short, okc,
              "%s::publication attaches exactly the stored correlation data when present" % short, where=b.span)
+    clause_correlation_kept(R, "publication")
+
+
+def clause_correlation_kept(R, prefix):
+    """correlation data asked for with `.correlate()` (or by the reply helpers) is in the property set that is encoded,
+    whatever else the builder is told afterwards (shared with C09)"""
+    f = R.f
     cor = roles.method(f, "publication::Publication", "correlate")
     t = [c for c in cor.calls.values() if c.bb in cor.reachable and c.is_("with_correlation")]
-    R.ob("publication/correlate", len(t) == 1 and peel(cor.operand_term(t[0].args[1])) == ("param", "data"),
+    R.ob(prefix + "/correlate", len(t) == 1 and peel(cor.operand_term(t[0].args[1])) == ("param", "data"),
          "Publication::correlate stores its argument through Properties::with_correlation", where=cor.span)
     pr = roles.method(f, "publication::Publication", "properties")
     t = [c for c in pr.calls.values() if c.bb in pr.reachable and c.is_("with_properties")]
-    R.ob("publication/properties", len(t) == 1 and peel(pr.operand_term(t[0].args[1])) == ("param", "properties"),
+    R.ob(prefix + "/properties", len(t) == 1 and peel(pr.operand_term(t[0].args[1])) == ("param", "properties"),
          "Publication::properties installs the user properties through Properties::with_properties", where=pr.span)
     wc = roles.method(f, PROPS, "with_correlation")
     aggs = [wc.rvalue_term(s["rv"]) for bb, j, s in wc.assigns() if bb in wc.reachable and "agg" in s["rv"]
@@ -205,7 +212,7 @@ def rule_publication(R):
         fl = dict(zip(a[4], a[5]))
         c = peel(fl.get("correlation", ("unknown",)))
         okw = okw and c[0] == "agg" and c[3] == "CorrelationData" and peel(c[5][0]) == ("param", "data")
-    R.ob("publication/with_correlation", okw,
+    R.ob(prefix + "/with_correlation", okw,
          "with_correlation always yields a property set whose correlation entry is Property::CorrelationData(data)", where=wc.span)
     wp = roles.method(f, PROPS, "with_properties")
     keep = False
@@ -223,7 +230,10 @@ def rule_publication(R):
                         r, n = chain(fl["correlation"])
                         keep = n[-2:] == ["@WithCorrelation", "correlation"] and peel(fl["properties"]) == ("param", "properties")
                         keep = keep and wp.must_pass([tgt], wp.returns, via_blocks=[x])[0]
-    R.ob("publication/with_properties-keeps-correlation", keep,
+                        # ... and no return is reached without asking whether a correlation entry is present
+                        # (an early exit on, say, an empty list would drop it)
+                        keep = keep and wp.must_pass([0], wp.returns, via_blocks=[bb])[0]
+    R.ob(prefix + "/with_properties-keeps-correlation", keep,
          "attaching user properties to a correlated publication keeps the correlation entry and installs the new list", where=wp.span)
 
 
